@@ -347,6 +347,8 @@ func (c *Ctx) invoke(fr *Frame, st *State, reach T, cc *ssa.CallCommon, recv Val
 		}
 	}
 	key := "(" + ik + ")." + name
+	// call-site assertions of the caller's contract (arg0 is the receiver)
+	c.callSiteAsserts(fr, st, reach, key, pos, append([]Val{recv}, args...))
 	if ct := c.P.CS.Funcs[key]; ct != nil {
 		fsig := types.NewSignatureType(types.NewVar(token.NoPos, nil, "recv", it), nil, nil, sig.Params(), sig.Results(), sig.Variadic())
 		return c.contractCall(fr, st, reach, key, ct, fsig, append([]Val{recv}, args...), pos)
